@@ -33,7 +33,7 @@ theorem C06_translated_into_client (C : Crypto) (e : Exp) (u : NStr) (K : Bytes)
       = some (.ok (.tup (.bytes (ProofSeed.intoClientHeaderCrypto C e seed u K serverSeed).1) (cryptoMark "HeaderCrypto::new" K), selfSeed seed, []))
     ∧ (ProofSeed.intoClientHeaderCrypto C e seed u K serverSeed).2 = HeaderCrypto.new C e K := by
   cases e <;>
-  simp [Gen.CodeApi.vanillaIntoClient, Gen.CodeApi.tbcIntoClient, ApiFn.run, runBody, Rhs.eval, Ret.eval, atomsVal, Atom.val, lookup, bindVar,
+  simp [Gen.CodeApi.vanillaIntoClient, Gen.CodeApi.tbcIntoClient, ApiFn.run, runBody, Rhs.eval, drawKinds, Ret.eval, atomsVal, Atom.val, lookup, bindVar,
     worldPrims, selfSeed, ProofSeed.intoClientHeaderCrypto, Out.bind, bind]
 
 theorem C06_translated_into_server (C : Crypto) (e : Exp) (u : NStr) (K proof : Bytes) (seed clientSeed : Nat) :
@@ -44,11 +44,11 @@ theorem C06_translated_into_server (C : Crypto) (e : Exp) (u : NStr) (K proof : 
           | .ok _ => (.ok (cryptoMark "HeaderCrypto::new" K), selfSeed seed, []))) := by
   by_cases hM : calculateWorldServerProof C u.asRef K seed clientSeed = proof
   · cases e <;>
-    simp [Gen.CodeApi.vanillaIntoServer, Gen.CodeApi.tbcIntoServer, ApiFn.run, runBody, Rhs.eval, Ret.eval, atomsVal, fieldsVal, Atom.val, lookup,
+    simp [Gen.CodeApi.vanillaIntoServer, Gen.CodeApi.tbcIntoServer, ApiFn.run, runBody, Rhs.eval, drawKinds, Ret.eval, atomsVal, fieldsVal, Atom.val, lookup,
       bindVar, worldPrims, selfSeed, valMatchErr, eqVal, ProofSeed.intoServerHeaderCrypto, hM, Out.bind, bind]
   · have hb : (calculateWorldServerProof C u.asRef K seed clientSeed == proof) = false := by simp [hM]
     cases e <;>
-    simp [hb, Gen.CodeApi.vanillaIntoServer, Gen.CodeApi.tbcIntoServer, ApiFn.run, runBody, Rhs.eval, Ret.eval, atomsVal, fieldsVal, Atom.val, lookup,
+    simp [hb, Gen.CodeApi.vanillaIntoServer, Gen.CodeApi.tbcIntoServer, ApiFn.run, runBody, Rhs.eval, drawKinds, Ret.eval, atomsVal, fieldsVal, Atom.val, lookup,
       bindVar, worldPrims, selfSeed, valMatchErr, eqVal, ProofSeed.intoServerHeaderCrypto, hM, Out.bind, bind]
 
 theorem C06_translated_wrath_into_client (C : Crypto) (u : NStr) (K : Bytes) (seed serverSeed : Nat) :
@@ -58,10 +58,10 @@ theorem C06_translated_wrath_into_client (C : Crypto) (u : NStr) (K : Bytes) (se
   simp only [ProofSeed.wrathIntoClient]
   cases hN : WClientCrypto.new C K with
   | panic m =>
-    simp [Gen.CodeApi.wrathIntoClient, ApiFn.run, runBody, Rhs.eval, Ret.eval, atomsVal, Atom.val, lookup, bindVar, worldPrims, selfSeed, hN,
+    simp [Gen.CodeApi.wrathIntoClient, ApiFn.run, runBody, Rhs.eval, drawKinds, Ret.eval, atomsVal, Atom.val, lookup, bindVar, worldPrims, selfSeed, hN,
       Out.bind, bind]
   | ok c =>
-    simp [Gen.CodeApi.wrathIntoClient, ApiFn.run, runBody, Rhs.eval, Ret.eval, atomsVal, Atom.val, lookup, bindVar, worldPrims, selfSeed, hN,
+    simp [Gen.CodeApi.wrathIntoClient, ApiFn.run, runBody, Rhs.eval, drawKinds, Ret.eval, atomsVal, Atom.val, lookup, bindVar, worldPrims, selfSeed, hN,
       Out.bind, bind]
 
 theorem C06_translated_wrath_into_server (C : Crypto) (u : NStr) (K proof : Bytes) (seed clientSeed : Nat) :
@@ -73,17 +73,28 @@ theorem C06_translated_wrath_into_server (C : Crypto) (u : NStr) (K proof : Byte
   by_cases hM : calculateWorldServerProof C u.asRef K seed clientSeed = proof
   · cases hN : WServerCrypto.new C K with
     | panic m =>
-      simp [Gen.CodeApi.wrathIntoServer, ApiFn.run, runBody, Rhs.eval, Ret.eval, atomsVal, fieldsVal, Atom.val, lookup, bindVar, worldPrims, selfSeed,
+      simp [Gen.CodeApi.wrathIntoServer, ApiFn.run, runBody, Rhs.eval, drawKinds, Ret.eval, atomsVal, fieldsVal, Atom.val, lookup, bindVar, worldPrims, selfSeed,
         valMatchErr, eqVal, hM, hN, Out.bind, bind]
     | ok c =>
-      simp [Gen.CodeApi.wrathIntoServer, ApiFn.run, runBody, Rhs.eval, Ret.eval, atomsVal, fieldsVal, Atom.val, lookup, bindVar, worldPrims, selfSeed,
+      simp [Gen.CodeApi.wrathIntoServer, ApiFn.run, runBody, Rhs.eval, drawKinds, Ret.eval, atomsVal, fieldsVal, Atom.val, lookup, bindVar, worldPrims, selfSeed,
         valMatchErr, eqVal, hM, hN, Out.bind, bind]
   · have hb : (calculateWorldServerProof C u.asRef K seed clientSeed == proof) = false := by simp [hM]
-    simp [hb, Gen.CodeApi.wrathIntoServer, ApiFn.run, runBody, Rhs.eval, Ret.eval, atomsVal, fieldsVal, Atom.val, lookup, bindVar, worldPrims, selfSeed,
+    simp [hb, Gen.CodeApi.wrathIntoServer, ApiFn.run, runBody, Rhs.eval, drawKinds, Ret.eval, atomsVal, fieldsVal, Atom.val, lookup, bindVar, worldPrims, selfSeed,
       valMatchErr, eqVal, hM, Out.bind, bind]
+
+/-- the parameter lists and return types the terms above were read under (the terms carry parameter NAMES; the types decide what a
+    conversion such as `Generator::from(generator)`, `.into()` or `?` means) -/
+theorem C06_translated_world_signatures :
+    Gen.CodeApi.vanillaIntoClientSig = "self,username:&NormalizedString,session_key:[u8;SESSION_KEY_LENGTH as _],server_seed:u32,->([u8;PROOF_LENGTH as _],HeaderCrypto)" ∧
+    Gen.CodeApi.vanillaIntoServerSig = "self,username:&NormalizedString,session_key:[u8;SESSION_KEY_LENGTH as _],client_proof:[u8;PROOF_LENGTH as _],client_seed:u32,->Result<HeaderCrypto,MatchProofsError>" ∧
+    Gen.CodeApi.tbcIntoClientSig = "self,username:&NormalizedString,session_key:[u8;SESSION_KEY_LENGTH as _],server_seed:u32,->([u8;PROOF_LENGTH as _],HeaderCrypto)" ∧
+    Gen.CodeApi.tbcIntoServerSig = "self,username:&NormalizedString,session_key:[u8;SESSION_KEY_LENGTH as _],client_proof:[u8;PROOF_LENGTH as _],client_seed:u32,->Result<HeaderCrypto,MatchProofsError>" ∧
+    Gen.CodeApi.wrathIntoClientSig = "self,username:&NormalizedString,session_key:[u8;SESSION_KEY_LENGTH as _],server_seed:u32,->([u8;PROOF_LENGTH as _],ClientCrypto)" ∧
+    Gen.CodeApi.wrathIntoServerSig = "self,username:&NormalizedString,session_key:[u8;SESSION_KEY_LENGTH as _],client_proof:[u8;PROOF_LENGTH as _],client_seed:u32,->Result<ServerCrypto,MatchProofsError>" := by decide +kernel
 
 #print axioms C06_translated_into_client
 #print axioms C06_translated_into_server
 #print axioms C06_translated_wrath_into_client
 #print axioms C06_translated_wrath_into_server
+#print axioms C06_translated_world_signatures
 end WowSrp
